@@ -77,3 +77,46 @@ func init() {
 			ruleUnbindUsesPodPolicy(c, "C03.R6")
 		}})
 }
+
+func init() {
+	register(&propDef{ID: "C07", Title: "A sized IP pool never grows beyond its size",
+		Explanation: "Decides the mechanism 'count and allocate inside the pool lock': in the filter (getSubnet/getAvailableSubnet/allocateDuringFilter) deployment keys always pass LockDpPool(PoolPrefix()) before the count, nothing is counted or allocated before the lock, and isPoolSizeDefined can be true only on paths dominated by the lock acquisition; the count is over the locked prefix and the size/replicas limit ends in an error before any subnet is computed; pre-allocation through the API counts and allocates with the same lock class held (LockPoolFunc is bound to exactly the pool-lock wrapper) and lock key = counted prefix = allocation key; unbindDpPod counts and decides under the pool lock; a failed re-key never falls through to a fresh allocation and errors on this path are returned. Does not decide the numeric bound under all interleavings nor that the size read before the lock is the size in force.",
+		Assumptions: []string{"key mutex pools are identified by field (class), the key argument is checked to be the PoolPrefix() value"},
+		Run: func(c *Ctx) {
+			c.Rule("C07.R1", "count + allocate inside the pool lock (filter, pre-allocation, unbind); limit; error discipline", 20)
+			rulePoolLock(c, "C07.R1")
+			c.Rule("C07.R2", "releaser of a lock wrapper is deferred immediately", 9)
+			ruleWrapperDeferred(c, "C07.R2")
+		}})
+	register(&propDef{ID: "C02", Title: "Float IP is sticky across reschedule and rolling update",
+		Explanation: "Decides necessary conditions of 'reuse the reserved IP, never a fresh one': (R1) bind looks the pod's IPs up before allocating, has a success path that allocates nothing, allocates only the ranges whose lookup entry is nil, and only refreshes attributes of reused IPs under the same key; (R2) filter looks up first and returns the held IPs' node subnets without consulting the free pool; a partly allocated request is intersected with the held IPs' subnets; (R3) the UID guard; (R4) the re-key picks only an entry with the old key in a pool routable from the subnet, and updates store and memory with a clone of that entry under the new key; (R5) the unbind functions reserve instead of releasing for immutable/never (C03.R1). Does not decide 'exactly the IP it held before' over all histories and event orders, nor 'newest first'.",
+		Assumptions: []string{"CFG paths; data dependence is syntactic (SSA operands, phis, local cells)"},
+		Run: func(c *Ctx) {
+			c.Rule("C02.R1", "lookup before allocate; reuse path; filter/bind node-subnet agreement", 12)
+			ruleStickyLookup(c, "C02.R1")
+			c.Rule("C02.R3", "UID guard", 3)
+			ruleUIDGuard(c, "C02.R3")
+			c.Rule("C02.R4", "re-key guards", 3)
+			ruleRekeyGuards(c, "C02.R4")
+			c.Rule("C02.R5", "unbind reserves for immutable/never", 12)
+			rulePolicyEffect(c, "C02.R5")
+			c.Rule("C02.R6", "a failed re-key of the reserved ip is returned, never replaced by a fresh allocation", 5)
+			ruleFilterAllocErrors(c, "C02.R6")
+		}})
+	register(&propDef{ID: "C06", Title: "Filter-approved nodes can be bound and get a routable IP",
+		Explanation: "Decides: (R1) allocation only from pools that list the node subnet (single-IP allocator, multi-IP candidate callback, re-key); (R2) the ipinfo written for an IP takes mask, VLAN and gateway from that IP's own pool and the address from the IP; (R3) Filter keeps a node iff the computed subnet set contains getNodeSubnet(node), records the others as failed, and fails on a getSubnet error; filter and bind resolve node subnets through the same IPAM query; (R4) a pod that holds IPs is offered only their node subnets, and a partly allocated request is intersected with them; (R5) on reload an allocation is attached to the pool whose ranges contain the IP (not merely whose subnet does); errors on the allocation path are returned. Does not decide that bind succeeds after filter, nor 'exactly the nodes with a free routable IP' (set equality over runtime tables).",
+		Assumptions: []string{"CFG paths"},
+		Run: func(c *Ctx) {
+			c.Rule("C06.R1", "allocation only from pools that list the node subnet", 6)
+			ruleAllocateRoutable(c, "C06.R1")
+			ruleCandidateGuards(c, "C06.R1")
+			ruleRekeyGuards(c, "C06.R1")
+			c.Rule("C06.R2", "ipinfo from the IP's own pool", 4)
+			ruleIPInfoFromPool(c, "C06.R2")
+			c.Rule("C06.R3", "filter/bind lookup and node-subnet agreement", 12)
+			ruleStickyLookup(c, "C06.R3")
+			c.Rule("C06.R5", "reload attaches an allocation to the pool whose ranges contain it", 2)
+			ruleReloadDeletesOnlyForeign(c, "C06.R5")
+			ruleReloadPoolMatch(c, "C06.R5")
+		}})
+}
